@@ -156,6 +156,10 @@ def run(ctx) -> int:
         if r["status"] == "unparsable":
             ctx.cov["unsupported"] += 1
             continue
+        if r["status"] == "killed":
+            ctx.cov["skipped"] += 1
+            ctx.notes.append(f"case killed by the harness ({r.get('error')}; not a verdict): {text[:80]!r}")
+            continue
         on = [t for t, v in fl.items() if v]
         rec = {"program": text, "flags": fl, "inp": inp, "outp": outp}
         if r["status"] == "crash":
